@@ -24,7 +24,8 @@
                      rotated access token is accepted until its expiry;
      "oldsecret"     the store fallback of ValidateToken accepts a stored access token whose signature
                      does not verify under the current secret (issued under a previous secret);
-     "refreshexp"    Refresh signs/stores the new access token with the OLD record's expiry;
+     "refreshexp"    Refresh signs/stores the new access token with the OLD record's expiry even when that
+                     expiry has already passed (the token is then dead on arrival);
      "defaultsecret" with no secret configured, tokens signed with the public constant are accepted.
    Behaviour the statement of C35 is silent about is modelled as the code does it, without a switch:
      - ValidateToken of a refresh key succeeds through the store fallback while the record's access
@@ -183,8 +184,12 @@ Refresh(t, mut, ok, a, r, fresh) ==
                /\ ok = TRUE /\ a = nextId + 1 /\ r = nextId + 2
                \* rx: the statement does not say whether a refresh extends the refresh lifetime (the code
                \* keeps the original one); both are allowed
-               /\ \E G \in SUBSET Findings, rx \in {old.refExp, now + TTL_R} :
-                    LET exp  == IF "refreshexp" \in G THEN old.exp ELSE now + TTL_A
+               \* ex: the statement asks that the new access token be valid when issued, not how long it
+               \* lives: a full lifetime or the rest of the old token's lifetime are both allowed.  Reusing an
+               \* expiry that has already passed is the deviation "refreshexp".
+               /\ \E G \in SUBSET Findings : \E rx \in {old.refExp, now + TTL_R},
+                     ex \in {now + TTL_A} \cup (IF old.exp > now \/ "refreshexp" \in G THEN {old.exp} ELSE {}) :
+                    LET exp  == ex
                         nrec == [acc |-> a, ref |-> r, exp |-> exp, refExp |-> rx]
                         tk1  == tok @@ (a :> [kind |-> "acc", sec |-> secret, exp |-> exp])
                                     @@ (r :> [kind |-> "ref", sec |-> secret, exp |-> rx])
